@@ -86,6 +86,11 @@ func isCallTo(in ssa.Instruction, pats ...string) bool {
 
 // Instrs iterates over all instructions of fn (not nested closures).
 func Instrs(fn *ssa.Function, f func(ssa.Instruction)) {
+	if len(helpers) > 0 {
+		// bodies of transparent helpers (adopt.go) count as part of the function
+		instrsWithHelpers(fn, f, map[*ssa.Function]bool{})
+		return
+	}
 	for _, b := range fn.Blocks {
 		for _, in := range b.Instrs {
 			f(in)
@@ -179,6 +184,16 @@ func edgeDominates(d, s, b *ssa.BasicBlock) bool {
 
 // CondsOf lists the branch conditions whose taken edge dominates b.
 func CondsOf(b *ssa.BasicBlock) []Cond {
+	out := condsLocal(b)
+	if len(helpers) > 0 {
+		out = append(out, siteConds(b, 4)...)
+		out = append(out, calleeConds(b)...)
+	}
+	return out
+}
+
+// condsLocal: the conditions inside b's own function.
+func condsLocal(b *ssa.BasicBlock) []Cond {
 	var out []Cond
 	for d := b.Idom(); d != nil; d = d.Idom() {
 		i := blockIf(d)
@@ -219,6 +234,13 @@ func expandConds(cs []Cond) []Cond {
 			c = Cond{u.X, !c.Pol, c.If}
 		}
 		out = append(out, c)
+		// a test extracted into a transparent helper (adopt.go): `if isX(a, b)` with
+		// `func isX(..) bool { return p && q }` is the test p && q
+		if h, idx := helperValue(c.V); h != nil && isBool(c.V.Type()) {
+			if rets := allReturns(h.fn); len(rets) == 1 && idx < len(rets[0].Results) {
+				out = append(out, expandConds([]Cond{{rets[0].Results[idx], c.Pol, c.If}})...)
+			}
+		}
 		// x := a && b ; if x  ==> phi [false (from a-false), b]
 		if ph, ok := c.V.(*ssa.Phi); ok && isBool(ph.Type()) {
 			// when polarity true and all other edges are const false, every
@@ -322,7 +344,7 @@ func NormCond(c Cond) (Rel, bool) {
 		if !pol {
 			op = negOp(op)
 		}
-		return Rel{L: l, R: r, Op: op, Src: c}, true
+		return Rel{L: unhelp(l), R: unhelp(r), Op: op, Src: c}, true
 	}
 	switch x := v.(type) {
 	case *ssa.BinOp:
@@ -494,6 +516,9 @@ func pathD(v ssa.Value, d int) string {
 	}
 	switch x := v.(type) {
 	case *ssa.Parameter:
+		if p, ok := helperParamPath(x, d); ok {
+			return p
+		}
 		return "param:" + canonParam(x)
 	case *ssa.FreeVar:
 		return "free:" + canonFree(x)
@@ -531,6 +556,11 @@ func pathD(v ssa.Value, d int) string {
 	case *ssa.BinOp:
 		return "(" + pathD(x.X, d-1) + " " + x.Op.String() + " " + pathD(x.Y, d-1) + ")"
 	case *ssa.Call:
+		if h := helperCall(x); h != nil && h.fn.Signature.Results().Len() == 1 {
+			if rv := helperResult(h, 0); rv != nil {
+				return pathD(rv, d-1)
+			}
+		}
 		var a []string
 		if x.Call.IsInvoke() {
 			a = append(a, pathD(x.Call.Value, d-1))
@@ -540,6 +570,13 @@ func pathD(v ssa.Value, d int) string {
 		}
 		return calleeShort(calleeID(x)) + "(" + strings.Join(a, ", ") + ")"
 	case *ssa.Extract:
+		if c, ok := x.Tuple.(*ssa.Call); ok {
+			if h := helperCall(c); h != nil {
+				if rv := helperResult(h, x.Index); rv != nil {
+					return pathD(rv, d-1)
+				}
+			}
+		}
 		return pathD(x.Tuple, d) + fmt.Sprintf("#%d", x.Index)
 	case *ssa.Alloc:
 		if x.Comment != "" {
@@ -648,6 +685,29 @@ func Derives(v ssa.Value, pred VP) bool {
 		if pred(v) {
 			return true
 		}
+		// through a transparent helper (adopt.go): the result of its call derives from
+		// what it returns, its parameters from the arguments at its call sites
+		if h, idx := helperValue(v); h != nil {
+			for _, ret := range allReturns(h.fn) {
+				if idx < len(ret.Results) && rec(ret.Results[idx], d-1) {
+					return true
+				}
+			}
+		}
+		if p, isP := v.(*ssa.Parameter); isP {
+			if h := helperFor(p.Parent()); h != nil {
+				for i, q := range p.Parent().Params {
+					if q != p {
+						continue
+					}
+					for _, s := range h.sites {
+						if i < len(s.Common().Args) && rec(s.Common().Args[i], d-1) {
+							return true
+						}
+					}
+				}
+			}
+		}
 		switch x := v.(type) {
 		case *ssa.UnOp:
 			if a, ok := x.X.(*ssa.Alloc); ok && x.Op == token.MUL {
@@ -733,12 +793,74 @@ func ReturnAlts(fn *ssa.Function, idx int) []RetAlt {
 		}
 		out = append(out, expandAlt(ret.Results[idx], CondsOf(b), b, ret, 6)...)
 	}
+	if len(helpers) > 0 {
+		out = splitByHelperReturns(out)
+	}
+	return out
+}
+
+// splitByHelperReturns: an alternative reached under a condition on the result
+// of a transparent helper (`n, done := pick(a, b); if done { return x }`) is one
+// alternative per return of the helper that is consistent with the condition,
+// each with the conditions on the way to that return (adopt.go).
+func splitByHelperReturns(alts []RetAlt) []RetAlt {
+	var out []RetAlt
+	for _, a := range alts {
+		split := false
+		if a.Block != nil {
+			f := a.Block.Parent()
+			for _, blk := range f.Blocks {
+				if split || (blk != a.Block && !blk.Dominates(a.Block)) {
+					continue
+				}
+				for _, in := range blk.Instrs {
+					h := helperCall(in)
+					if h == nil {
+						continue
+					}
+					rets := consistentReturns(h, in.(ssa.CallInstruction), a.Block)
+					if len(rets) < 2 || len(rets) == len(allReturns(h.fn)) {
+						continue
+					}
+					for _, hr := range rets {
+						cs := append(append([]Cond{}, a.Conds...), condsLocal(hr.Block())...)
+						out = append(out, RetAlt{a.Val, cs, a.Block, a.Ret})
+					}
+					split = true
+					break
+				}
+			}
+		}
+		if !split {
+			out = append(out, a)
+		}
+	}
 	return out
 }
 
 func expandAlt(v ssa.Value, conds []Cond, b *ssa.BasicBlock, ret *ssa.Return, depth int) []RetAlt {
 	if depth == 0 {
 		return []RetAlt{{v, conds, b, ret}}
+	}
+	// a returned call of a transparent helper: the helper's own ways of returning
+	if hv, idx := helperValue(v); hv != nil {
+		var out []RetAlt
+		for _, hb := range hv.fn.Blocks {
+			if len(hb.Instrs) == 0 || hb == hv.fn.Recover {
+				continue
+			}
+			hret, ok := hb.Instrs[len(hb.Instrs)-1].(*ssa.Return)
+			if !ok || idx >= len(hret.Results) {
+				continue
+			}
+			for _, a := range expandAlt(hret.Results[idx], condsLocal(hb), hb, hret, depth-1) {
+				cs := append(append([]Cond{}, conds...), a.Conds...)
+				out = append(out, RetAlt{a.Val, cs, b, ret})
+			}
+		}
+		if len(out) > 0 {
+			return out
+		}
 	}
 	switch x := v.(type) {
 	case *ssa.Phi:
@@ -816,10 +938,10 @@ func instrIndex(in ssa.Instruction) int {
 
 // domInstr: does instruction a dominate instruction b (same function)?
 func domInstr(a, b ssa.Instruction) bool {
-	if a.Block() == b.Block() {
-		return instrIndex(a) < instrIndex(b)
+	if a.Parent() != b.Parent() {
+		return domAcross(a, b, 4) // across the call of a transparent helper (adopt.go)
 	}
-	return a.Block().Dominates(b.Block())
+	return domLocal(a, b)
 }
 
 // reachableFrom returns the blocks reachable from b (excluding b unless on a cycle).
@@ -1127,4 +1249,59 @@ func loopBreaks(h *ssa.BasicBlock) []string {
 	}
 	sort.Strings(out)
 	return out
+}
+
+// helperValue: v is the (idx-th) result of a call of a transparent helper.
+func helperValue(v ssa.Value) (*helper, int) {
+	if len(helpers) == 0 {
+		return nil, 0
+	}
+	switch x := v.(type) {
+	case *ssa.Call:
+		if h := helperCall(x); h != nil && h.fn.Signature.Results().Len() == 1 {
+			return h, 0
+		}
+	case *ssa.Extract:
+		if c, ok := x.Tuple.(*ssa.Call); ok {
+			if h := helperCall(c); h != nil {
+				return h, x.Index
+			}
+		}
+	}
+	return nil, 0
+}
+
+// unhelp: the value behind a call of a transparent helper that has a single way of returning it.
+func unhelp(v ssa.Value) ssa.Value {
+	for i := 0; i < 4 && len(helpers) > 0; i++ {
+		h, idx := helperValue(v)
+		if h == nil {
+			break
+		}
+		rv := helperResult(h, idx)
+		if rv == nil {
+			break
+		}
+		v = rv
+	}
+	return v
+}
+
+// typedField: "<named struct type>.<field>" when v is (a load of) a field of a
+// named struct, "" otherwise. Identifies a value by what it is a part of
+// rather than by the name of the variable that holds the struct.
+func typedField(v ssa.Value) string {
+	v = peel(v)
+	if u, ok := v.(*ssa.UnOp); ok && u.Op == token.MUL {
+		v = u.X
+	}
+	switch x := v.(type) {
+	case *ssa.FieldAddr:
+		_, n := namedOf(x.X.Type())
+		return n + "." + fieldName(x.X.Type(), x.Field)
+	case *ssa.Field:
+		_, n := namedOf(x.X.Type())
+		return n + "." + fieldName(x.X.Type(), x.Field)
+	}
+	return ""
 }
